@@ -49,6 +49,8 @@ func dstMenu() []struct {
 		out = append(out, d{fmt.Sprintf("xy/spare%d", k), mk("xy", k)})
 	}
 	out = append(out, d{"long/spare3", mk("0123456789abcdef", 3)})
+	// content that is not valid UTF-8 on its own (ends in the first bytes of a multi-byte sequence)
+	out = append(out, d{"partial-rune/spare0", mk("ab\xe2\x82", 0)}, d{"partial-rune/spare6", mk("\xf0\x9f", 6)})
 	return out
 }
 
